@@ -406,9 +406,8 @@ class Code:
     def AddLocal(self, local: Local):
         # If we're adding another local of the same type, we simply increment
         # the last local so we avoid generating tons of repeated locals
-        if self.__lastLocal:
-            if self.__lastLocal.Type == local.Type:
-                self.__lastLocal.SetCount(self.__lastLocal.Count + local.Count)
+        if self.__lastLocal and self.__lastLocal.Type == local.Type:
+            self.__lastLocal.SetCount(self.__lastLocal.Count + local.Count)
         else:
             self.__locals.append(local)
             self.__lastLocal = local
